@@ -62,7 +62,7 @@ def group_vectors(vs):
         key = v["inner"] + json.dumps(v["env"], sort_keys=True)
         g = groups.get(key)
         if g is None:
-            g = groups[key] = {"inner": v["inner"], "cons": v["env"], "vectors": [], "lay": v["lay"]}
+            g = groups[key] = {"inner": v["inner"], "cons": v["env"], "vectors": [], "lay": v.get("lay")}
         g["vectors"].append(v)
     out = list(groups.values())
     for gid, g in enumerate(out):
@@ -87,6 +87,16 @@ def batches(groups, nbatch):
     return [b for b in bs if b]
 
 
+def _guarded(worker, inner_defs, groups, extra):
+    """Runs in the worker process: exceptions escaping the harness code are
+    machinery errors, never verdicts."""
+    import traceback
+    try:
+        return worker(inner_defs, groups, extra)
+    except BaseException:  # noqa
+        return {"harness_error": traceback.format_exc()[-3000:]}
+
+
 def run_batches(worker, groups, vs, extra, nbatch=None, timeout=900):
     """Dispatch groups (by inner environment) to worker processes.
     worker(inner_defs, groups, extra) -> result dict."""
@@ -98,11 +108,68 @@ def run_batches(worker, groups, vs, extra, nbatch=None, timeout=900):
         futs = {}
         for inner, gs in by_inner.items():
             for b in batches(gs, nbatch or NCPU):
-                futs[ex.submit(worker, vs.inner[inner], b, extra)] = b
+                futs[ex.submit(_guarded, worker, vs.inner[inner], b, extra)] = b
         for fut in as_completed(futs):
             try:
-                results.append(fut.result(timeout=timeout))
+                r = fut.result(timeout=timeout)
+                if "harness_error" in r:
+                    raise MachineryError("worker failed inside the harness:\n" + r["harness_error"])
+                results.append(r)
+            except MachineryError:
+                raise
             except Exception as e:  # worker crashed or timed out
                 results.append({"crash": "%s: %s" % (type(e).__name__, e),
                                 "groups": [g["gid"] for g in futs[fut]]})
     return results
+
+
+# ---------------------------------------------------------------------------
+# fault vectors (decoder machine + fault model, spec/WireDec.tla)
+# ---------------------------------------------------------------------------
+DEC_INVARIANTS = ["DecoderInBounds", "RoundTrip", "AcceptConsumesAll", "TruncationDetected", "FDump"]
+
+
+def dconsts(inner, max_members, faults, orders, **kw):
+    c = consts(inner, max_members, **kw)
+    c["FaultKinds"] = "{%s}" % ", ".join('"%s"' % f for f in faults)
+    c["DecOrders"] = "{%s}" % ", ".join('"%s"' % o for o in orders)
+    return c
+
+
+ALL_FAULTS = ("none", "trunc", "ext", "ctl")
+
+
+def generate_faults(tier):
+    vs = VectorSet()
+    sd = seed()
+    if tier == "quick":
+        runs = [("InnerSmall", dconsts("InnerSmall", 1, ALL_FAULTS, "L", max_len=2), None),
+                ("InnerDef", dconsts("InnerDef", 3, ALL_FAULTS, "LB", max_types=2, max_len=2), 60)]
+    else:
+        runs = [("InnerSmall", dconsts("InnerSmall", 2, ALL_FAULTS, "L", max_len=1, widths="{1, 8}"), None),
+                ("InnerDef", dconsts("InnerDef", 1, ALL_FAULTS, "LB", max_len=2), None),
+                ("InnerDef", dconsts("InnerDef", 4, ALL_FAULTS, "LB", max_types=3, max_len=3), 2500)]
+    for inner, c, sim in runs:
+        res = run_tlc("WireDecMC", c, invariants=DEC_INVARIANTS, prefix=("FVEC", "INNER"), spec="DSpec",
+                      simulate=sim, depth=600, seed=sd)
+        for tag, body in res.lines:
+            if tag == "INNER":
+                vs.inner[inner] = json.loads(body)
+            else:
+                v = json.loads(body)
+                v["inner"] = inner
+                vs.vectors.append(v)
+        vs.stats.append(res.stats)
+    return vs
+
+
+def vacuity_guard():
+    """The round-trip theorem WITHOUT the documented greedy-tail restriction
+    must fail in the specification; otherwise the restriction (and with it the
+    C02 check) is vacuous."""
+    c = dconsts("InnerSmall", 2, ("none",), "L", max_len=1, widths="{1, 8}")
+    res = run_tlc("WireDecMC", c, invariants=["RoundTripUnrestricted"], spec="DSpec", expect_violation=True)
+    if res.ok or "RoundTripUnrestricted is violated" not in (res.error or ""):
+        raise MachineryError("vacuity guard: TLC did not rediscover the documented greedy-tail exception: %s"
+                             % res.error)
+    return res.stats
